@@ -84,6 +84,8 @@ class ExitInformation(object):
             return "Error (linear algebra): " + self.msg
         elif self.flag == EXIT_FALSE_SUCCESS_WARNING:
             return "Warning (max false good steps): " + self.msg
+        elif self.flag == EXIT_AUTO_DETECT_RESTART_WARNING:
+            return "Warning (auto-detected restart): " + self.msg
         elif self.flag == EXIT_EVAL_ERROR:
             return "Error (function evaluation): " + self.msg
         else:
